@@ -93,3 +93,39 @@ Example disp_5 : disp_route (Some (mk_disp (snk 1 []) 0)) (shape_rc (Some (mk_rc
   = GOk (Some (mk_disp (snk 1 []) 1), true). Proof. run. Qed.
 (* a nil shape: the method call behind the interface panics *)
 Example disp_6 : disp_route (Some (mk_disp (snk 1 []) 0)) shape_nil 0 = GPanic. Proof. run. Qed.
+(* round 5 (t2/tree.go; go run transcript):
+     parse [7]                      = leaf 7, 1, nil
+     parse [FF 2 5 FF 1 9]          = branch [leaf 5; branch [leaf 9]], 6, nil
+     parse [FF 0]                   = branch [], 2, nil
+     parse [FF 2 5]                 = nil, 3, "short"
+     parse [FF 1 FF 1 FF 1 FF 1 3]  = nil, 7, errDeep
+     parse []                       = nil, 0, "short"
+   self-recursion on an explicit fuel (out of fuel = panic), the sum type with its list node *)
+Definition lf (v : Z) : node := node_leafN (Some (mk_leafN v)).
+Definition br (ks : list node) : node := node_branchN (Some (mk_branchN ks)).
+Example parse_1 : parse 5 [7] 0 0 = GOk (lf 7, 1, ErrNil). Proof. run. Qed.
+Example parse_2 : parse 5 [255; 2; 5; 255; 1; 9] 0 0 = GOk (br [lf 5; br [lf 9]], 6, ErrNil). Proof. run. Qed.
+Example parse_3 : parse 5 [255; 0] 0 0 = GOk (br [], 2, ErrNil). Proof. run. Qed.
+Example parse_4 : parse 5 [255; 2; 5] 0 0 = GOk (node_nil, 3, ErrNew "short"). Proof. run. Qed.
+Example parse_5 : parse 5 [255; 1; 255; 1; 255; 1; 255; 1; 3] 0 0 = GOk (node_nil, 7, ErrIs "errDeep"). Proof. run. Qed.
+Example parse_6 : parse 5 [] 0 0 = GOk (node_nil, 0, ErrNew "short"). Proof. run. Qed.
+(* not enough fuel is a panic, never a wrong answer *)
+Example parse_7 : parse 2 [255; 2; 5; 255; 1; 9] 0 0 = GPanic. Proof. run. Qed.
+(* widen: 4609434218613702656 13837628693603680256 9218868437227405312 3936146074321813504
+          9221120237577961472 9223372036854775808 9221120237577961472 18444492274432737280 4039728864677593088
+   float32 -> float64 on bit patterns: normal, negative, infinity, denormals, quiet and signalling NaN, -0 *)
+Example widen_1 : widen 1069547520 = GOk 4609434218613702656. Proof. run. Qed.
+Example widen_2 : widen 3226013659 = GOk 13837628693603680256. Proof. run. Qed.
+Example widen_3 : widen 2139095040 = GOk 9218868437227405312. Proof. run. Qed.
+Example widen_4 : widen 1 = GOk 3936146074321813504. Proof. run. Qed.
+Example widen_5 : widen 2143289345 = GOk 9221120237577961472. Proof. run. Qed.
+Example widen_6 : widen 2147483648 = GOk 9223372036854775808. Proof. run. Qed.
+Example widen_7 : widen 2139095041 = GOk 9221120237577961472. Proof. run. Qed.
+Example widen_8 : widen 4286578689 = GOk 18444492274432737280. Proof. run. Qed.
+Example widen_9 : widen 8388607 = GOk 4039728864677593088. Proof. run. Qed.
+(* flags [0 3 0 1] = [false true false true]; flags nil = [] : make / element assignment on []bool *)
+Example flags_1 : flags [0; 3; 0; 1] = GOk [false; true; false; true]. Proof. run. Qed.
+Example flags_2 : flags [] = GOk []. Proof. run. Qed.
+(* text "hey" = "hey"; text nil = "" : unsafe.String over unsafe.SliceData *)
+Example text_1 : text [104; 101; 121] = GOk [104; 101; 121]. Proof. run. Qed.
+Example text_2 : text [] = GOk []. Proof. run. Qed.
